@@ -70,7 +70,7 @@ def poke_histories(h, i, share):
 
 def run(ctx):
     rng = ctx.rng
-    n = ctx.n(250, 1800)
+    n = ctx.n(225, 1800)
     histories = CORPUS + [G.history_c10(rng, 16 if ctx.thorough else 9) for _ in range(n)]
     n = len(histories)
     want = ("read", "build", "edit", "write")
@@ -117,6 +117,7 @@ def run(ctx):
             res["violations"].append(violation_record(h, i, clause, extra))
     C.detail_summary(histories, r["details"], res)
     scc_reuse_stream(ctx, res)
+    reader_state_stream(ctx, res)
     # correspondence streams actually run: (1) model snapshots / aliasing vs real heap, (2) pristine reads,
     # (3) the same histories in processes with other hash seeds (each evaluated by the oracle on its own)
     res["streams"] = 2 + (1 if r["pristine"] else 0) + (1 if len(r["by_seed"]) > 1 else 0)   # 2 = heap model + SCC decoder-state model
@@ -162,7 +163,12 @@ def run(ctx):
                    "compared with a new reader object and with the decoder-state model (request 1002).")
     res["samples"] = [C.describe_history(h) for h in histories[len(CORPUS):len(CORPUS) + 5]]
     res["clauses"] = {
-        "theorem": ["SCC READER REUSE (wave 7, over the decoder model): a read() of an SCCReader object in ANY state returns what "
+        "theorem": ["READER OBJECT STATE (round 4, model/ReaderReuse.v): SAMI line / first_alignment, DFXP nodes, MicroDVD fps, WebVTT "
+                    "previous start under its options - every history of documents on one object incl. raising reads gives the "
+                    "fresh-object results under the code's resets; redundant resets identified; partial resets refuted by "
+                    "two-document witnesses (C10_par_/C10_mdvd_/C10_vtt_reader_history_isolated, ..._refuted); executed against "
+                    "the real reused readers (request 1003)",
+                    "SCC READER REUSE (wave 7, over the decoder model): a read() of an SCCReader object in ANY state returns what "
                     "a new object returns, for every document / offset, provided the reset covers the twelve decoder fields; "
                     "lifted to every history of documents incl. refused ones; the code's reset covers them; refuted for "
                     "no reset and for six single-field omissions (C10_scc_read_independent_of_reader_state, "
@@ -334,7 +340,7 @@ def scc_reuse_stream(ctx, res):
     import random
     import sccobs as O
     rng = random.Random(ctx.rng.getrandbits(64))
-    n = ctx.n(60, 250)
+    n = ctx.n(50, 250)
     hs = [gen_scc_docs(rng) for _ in range(n)]
     dist = res["distribution"]
     full = list(range(12))
@@ -407,7 +413,344 @@ def scc_reuse_stream(ctx, res):
                                 "source_vs_model": note}
 
 
+# ---- round 4: instance state of the SAMI / DFXP / MicroDVD / WebVTT reader objects (coq/model/ReaderReuse.v, request 1003) ----
+ALIGN = {"left": 1, "center": 2, "right": 3}
+SAMI_HEAD = ('<SAMI><HEAD><STYLE TYPE="text/css"><!--\n.ENCC {name: English; lang: en-US;}\n--></STYLE></HEAD><BODY>')
+
+
+def _gen_pars(rng, fmt, allow_fail):
+    """abstract paragraphs and the document text they are rendered to (the abstract form is known by construction)"""
+    pars, chunks = [], []
+    t = rng.choice([1000, 5000, 61000])
+    for k in range(rng.randint(1, 3)):
+        if allow_fail and k > 0 and rng.random() < 0.25:
+            pars.append([[4]])
+            chunks.append((None, "bad"))
+            break
+        items, body = [], ""
+        for j in range(rng.randint(1, 3)):
+            z = rng.randint(1, 99)
+            q = rng.random()
+            if j and (rng.random() < 0.4 or (items[-1][0] == 0 and q >= (0.5 if fmt == "sami" else 0.25))):
+                items.append([1])          # two text runs next to each other would be ONE text node
+                body += "<br/>"
+            if q < 0.25:
+                items += [[2, True, 1], [0, z], [2, False, 1]]
+                body += ("<i>w%d</i>" % z) if fmt == "sami" else ('<span tts:fontStyle="italic">w%d</span>' % z)
+            elif q < 0.5 and fmt == "sami":
+                if items and items[-1][0] == 0:
+                    items.append([1])
+                    body += "<br/>"
+                a = rng.choice(sorted(ALIGN))
+                items += [[3, ALIGN[a]], [0, z]]        # a span with text-align only: no style nodes, first_alignment
+                body += '<span style="text-align:%s;">w%d</span>' % (a, z)
+            else:
+                items.append([0, z])
+                body += "w%d" % z
+        pars.append(items)
+        chunks.append((t, body))
+        t += rng.choice([1000, 2500])
+    if fmt == "sami":
+        doc = SAMI_HEAD + "".join(('<SYNC start="%d"><P class="ENCC">%s</P></SYNC>' % (tt, b)) if tt is not None else
+                                  '<SYNC><P class="ENCC">no start</P></SYNC>' for tt, b in chunks) + "</BODY></SAMI>"
+    else:
+        def clk(ms):
+            return "00:%02d:%02d.%03d" % (ms // 60000, ms // 1000 % 60, ms % 1000)
+        doc = ('<tt xml:lang="en" xmlns="http://www.w3.org/ns/ttml" xmlns:tts="http://www.w3.org/ns/ttml#styling"><body><div>' +
+               "".join(('<p begin="%s" end="%s">%s</p>' % (clk(tt), clk(tt + 900), b)) if tt is not None else
+                       '<p begin="one" end="two">bad</p>' for tt, b in chunks) + "</div></body></tt>")
+    return pars, doc
+
+
+def _gen_obj_case(rng, machine):
+    """-> (options, [(abstract document, text)])"""
+    n = rng.choice([2, 2, 3])
+    if machine in ("sami", "dfxp"):
+        docs = [_gen_pars(rng, machine, allow_fail=(k < n - 1)) for k in range(n)]
+        if rng.random() < 0.25:
+            docs[-1] = docs[0] if docs[0][0][-1] != [[4]] else docs[-1]
+        return {}, docs
+    if machine == "mdvd":
+        docs = []
+        for k in range(n):
+            lines, text = [], []
+            if rng.random() < 0.5:
+                num, den, txt = rng.choice([(23976, 1000, "23.976"), (30, 1, "30"), (24, 1, "24"), (2997, 100, "29.97")])
+                lines.append([0, num, den])
+                text.append("{0}{0}%s" % txt)
+            f = rng.choice([10, 24, 31, 100])
+            for _ in range(rng.randint(1, 3)):
+                d = rng.choice([7, 24, 49])
+                lines.append([1, f, f + d])
+                text.append("{%d}{%d}w%d" % (f, f + d, f))
+                f += d + rng.choice([1, 13])
+            if k < n - 1 and rng.random() < 0.25:
+                lines.append([2])
+                text.append("this line has no frames")
+            docs.append((lines, "\n".join(text) + "\n"))
+        if rng.random() < 0.25:
+            docs[-1] = docs[0]
+        return {}, docs
+    opts = {"strict": rng.random() < 0.7, "shift": rng.choice([0, 0, 500, 1500])}
+    docs = []
+    for k in range(n):
+        t = rng.choice([0, 1000, 5000, 40000, 61000])
+        cues = []
+        for _ in range(rng.randint(1, 3)):
+            d = rng.choice([500, 1000, 2000])
+            cues.append([t * 1000, (t + d) * 1000])
+            t += d + rng.choice([0, 500])
+        if k < n - 1 and rng.random() < 0.3:
+            cues.append(rng.choice([[5000000, 4000000], [0, 1000000]]))      # end before start / an earlier start
+        docs.append(cues)
+    if rng.random() < 0.3:
+        docs[-1] = docs[0]
+    docs.sort(key=lambda c: -c[0][0]) if rng.random() < 0.4 else None       # later documents start earlier
+
+    def clk(us):
+        ms = us // 1000
+        return "%02d:%02d:%02d.%03d" % (ms // 3600000, ms // 60000 % 60, ms // 1000 % 60, ms % 1000)
+    return opts, [(c, "WEBVTT\n\n" + "\n".join("%s --> %s\ncue %d\n" % (clk(a), clk(b), i) for i, (a, b) in enumerate(c)))
+                  for c in docs]
+
+
+def _canon_nodes(nodes):
+    from pycaption import CaptionNode
+    out = []
+    for nd in nodes:
+        if nd.type_ == CaptionNode.TEXT:
+            txt = nd.content.strip()
+            out.append([0, int(txt[1:]) if txt[:1] == "w" and txt[1:].isdigit() else -1])
+        elif nd.type_ == CaptionNode.BREAK:
+            out.append([1])
+        else:
+            c = nd.content if isinstance(nd.content, dict) else {}
+            out.append([2, bool(nd.start), 1 if c.get("italics") else 2])
+    return out
+
+
+def _real_read(machine, reader, text):
+    """-> ("ok", canonical captions) | ("err", exception class)"""
+    import impl
+    from wire import Ok
+    r = impl.call(lambda: reader.read(text))
+    if not isinstance(r, Ok):
+        return ("err", type(impl.last_exc).__name__)
+    caps = r.v.get_captions(r.v.get_languages()[0])
+    if machine in ("sami", "dfxp"):
+        out = []
+        for c in caps:
+            al = None
+            li = c.layout_info
+            if machine == "sami" and li is not None and getattr(li, "alignment", None) is not None and li.alignment.horizontal is not None:
+                al = ALIGN.get(getattr(li.alignment.horizontal, "value", li.alignment.horizontal))
+            out.append([_canon_nodes(c.nodes), al])
+        return ("ok", out)
+    return ("ok", [[int(c.start), int(c.end)] for c in caps])
+
+
+def _new_reader(machine, opts):
+    from pycaption import SAMIReader, DFXPReader, MicroDVDReader, WebVTTReader
+    if machine == "sami":
+        return SAMIReader()
+    if machine == "dfxp":
+        return DFXPReader()
+    if machine == "mdvd":
+        return MicroDVDReader()
+    return WebVTTReader(ignore_timing_errors=not opts["strict"], time_shift_milliseconds=opts["shift"])
+
+
+def obj_real(machine, opts, docs):
+    reader = _new_reader(machine, opts)
+    reused = [_real_read(machine, reader, text) for _, text in docs]
+    fresh = [_real_read(machine, _new_reader(machine, opts), text) for _, text in docs]
+    return reused, fresh
+
+
+def obj_reuse_failures(machine, opts, docs):
+    reused, fresh = obj_real(machine, opts, docs)
+    return [k for k, (a, b) in enumerate(zip(reused, fresh)) if a != b]
+
+
+MACHINE = {"sami": (1, [0, 1, 2]), "dfxp": (1, [0, 1, 2]), "mdvd": (2, [0]), "vtt": (3, [0])}
+
+
+def obj_model(machine, cases, fields):
+    from wire import oracle_batch
+    mid = MACHINE[machine][0]
+    reqs = []
+    for opts, docs in cases:
+        o = [bool(opts.get("strict")), int(opts.get("shift", 0)) * 1000] if machine == "vtt" else []
+        reqs.append((1003, [mid, list(fields), o, [d for d, _ in docs]]))
+    out = []
+    for x in oracle_batch(reqs):
+        if x == [-1]:
+            out.append(None)
+            continue
+        rs = []
+        for r in x[1]:
+            if r[0] == 1:
+                rs.append(("err", None))
+            elif mid == 1:
+                rs.append(("ok", [[[list(n[:1]) + ([bool(n[1]), n[2]] if n[0] == 2 else list(n[1:])) for n in c[0]],
+                                   (c[1][0] if c[1] else None)] for c in r[1]]))
+            else:
+                rs.append(("ok", [list(p) for p in r[1]]))
+        out.append((bool(x[0]), rs))
+    return out
+
+
+def _same_outcome(real, model):
+    if real[0] == "err" or model[0] == "err":
+        return real[0] == model[0]
+    return real[1] == model[1]
+
+
+def source_reader_resets(repo):
+    """which of the modelled resets are VISIBLE in the source (AST), per machine; None = the source does not have the expected
+    shape, nothing is concluded.  sami: `self.line = []` and `self.first_alignment = None` before / after it in the same
+    function; dfxp: `self.nodes = []` outside __init__; mdvd: a local `fps = ..` before the first loop of read() and no
+    self.fps; vtt: no assignment to self.* outside __init__ (no per-read instance state at all)."""
+    import ast
+    import os
+    out = {}
+
+    def cls_of(path, name):
+        tree = ast.parse(open(os.path.join(repo, "pycaption", *path), encoding="utf-8").read())
+        return [n for n in tree.body if isinstance(n, ast.ClassDef) and n.name == name][0]
+
+    def self_assigns(fn):
+        res = []
+        for node in ast.walk(fn):
+            if isinstance(node, (ast.Assign, ast.AugAssign, ast.AnnAssign)):
+                for t in (node.targets if isinstance(node, ast.Assign) else [node.target]):
+                    if isinstance(t, ast.Attribute) and isinstance(t.value, ast.Name) and t.value.id == "self":
+                        res.append((t.attr, node.lineno, getattr(node, "value", None)))
+        return res
+    try:
+        c = cls_of(["sami.py"], "SAMIReader")
+        fs = set()
+        for fn in [n for n in c.body if isinstance(n, ast.FunctionDef) and n.name != "__init__"]:
+            a = self_assigns(fn)
+            lines = [ln for (x, ln, v) in a if x == "line" and isinstance(v, ast.List) and not v.elts]
+            if lines:
+                fs.add(0)
+                for (x, ln, v) in a:
+                    if x == "first_alignment" and isinstance(v, ast.Constant) and v.value is None:
+                        fs.add(1 if ln < lines[0] else 2)
+        out["sami"] = sorted(fs)
+    except Exception:  # noqa
+        out["sami"] = None
+    try:
+        c = cls_of(["dfxp", "base.py"], "DFXPReader")
+        ok = any(x == "nodes" and isinstance(v, ast.List) and not v.elts
+                 for fn in c.body if isinstance(fn, ast.FunctionDef) and fn.name != "__init__" for (x, ln, v) in self_assigns(fn))
+        out["dfxp"] = [0, 1, 2] if ok else [1, 2]
+    except Exception:  # noqa
+        out["dfxp"] = None
+    try:
+        c = cls_of(["microdvd.py"], "MicroDVDReader")
+        rd = [n for n in c.body if isinstance(n, ast.FunctionDef) and n.name == "read"][0]
+        local = False
+        for st in rd.body:
+            if isinstance(st, (ast.For, ast.While)):
+                break
+            if isinstance(st, ast.Assign) and any(isinstance(t, ast.Name) and t.id == "fps" for t in st.targets):
+                local = True
+        uses_self = any(x == "fps" for fn in c.body if isinstance(fn, ast.FunctionDef) for (x, ln, v) in self_assigns(fn))
+        out["mdvd"] = [0] if local and not uses_self else ([] if uses_self else None)
+    except Exception:  # noqa
+        out["mdvd"] = None
+    try:
+        c = cls_of(["webvtt.py"], "WebVTTReader")
+        stateful = any(self_assigns(fn) for fn in c.body if isinstance(fn, ast.FunctionDef) and fn.name != "__init__")
+        out["vtt"] = None if stateful else [0]
+    except Exception:  # noqa
+        out["vtt"] = None
+    return out
+
+
+def reader_state_stream(ctx, res):
+    """One SAMIReader / DFXPReader / MicroDVDReader / WebVTTReader(options) object reads 2-3 documents whose abstract form
+    (paragraph items / frame lines / cue times) is known by construction, raising documents in between, the same document
+    twice, later documents starting earlier.  Oracle: reused object == new object with the same options (results and
+    raising).  Correspondence: the reused reads == obj_history of the machine with the resets of the code (compared when
+    the fresh read agrees with the model); per reset field: on how many sequences leaving it out would change a result."""
+    import random
+    rng = random.Random(ctx.rng.getrandbits(64))
+    n = ctx.n(60, 300)
+    dist = res["distribution"].setdefault("reader_object_state", {})
+    SRC = source_reader_resets(ctx.repo)
+    for machine in ("vtt", "mdvd", "sami", "dfxp"):
+        cases = [_gen_obj_case(rng, machine) for _ in range(n)]
+        mid, full = MACHINE[machine]
+        m_full = obj_model(machine, cases, full)
+        exposes = {}
+        names = {1: ["line/nodes = []", "first_alignment = None (before)", "first_alignment = None (after)"],
+                 2: ["fps = 25"], 3: ["previous start = 0"]}[mid]
+        for f in full:
+            m_f = obj_model(machine, cases, [g for g in full if g != f])
+            exposes[names[f]] = sum(1 for a, b in zip(m_full, m_f) if a and b and a[1] != b[1])
+        outside = compared = raised = reads = 0
+        for (opts, docs), m in zip(cases, m_full):
+            reused, fresh = obj_real(machine, opts, docs)
+            res["evaluations"] += 1
+            reads += len(docs)
+            raised += sum(1 for x in reused if x[0] == "err")
+            bad = [k for k, (a, b) in enumerate(zip(reused, fresh)) if a != b]
+            if bad:
+                if not any(v.get("replay") == "obj-reuse" and v.get("machine") == machine for v in res["violations"]):
+                    res["violations"].append({"kind": "read-differs-from-pristine:%s" % machine, "replay": "obj-reuse",
+                                              "machine": machine, "opts": opts, "docs": docs, "input": docs, "op_index": bad[0],
+                                              "what": "read %d of %d on ONE %s reader object (options %s) differs from the same "
+                                                      "read on a new object: %r vs %r" % (bad[0] + 1, len(docs), machine, opts,
+                                                                                         reused[bad[0]], fresh[bad[0]])})
+                continue
+            if m is None or not m[0]:
+                res["disagreements"].append({"what": "reader object model rejected the request / reset does not cover",
+                                             "model": m, "history": docs})
+                continue
+            if not all(_same_outcome(a, b) for a, b in zip(fresh, m[1])):
+                outside += 1
+                continue
+            compared += 1
+            res["nontrivial"].add(json.dumps([machine, opts, [t for _, t in docs]]))
+            for k, (a, b) in enumerate(zip(reused, m[1])):
+                if not _same_outcome(a, b):
+                    res["disagreements"].append({"what": "%s reader reuse: read %d on the reused object vs object-state model"
+                                                         % (machine, k + 1), "impl": a, "model": b, "history": docs, "op_index": k})
+                    break
+        src = SRC.get(machine)
+        note = None
+        if src is not None and set(src) != set(full):
+            # a reset is not visible in the source: the MODEL says on which sequences that matters, the real reader is asked
+            more = cases + [_gen_obj_case(rng, machine) for _ in range(200)]
+            a_ = obj_model(machine, more, full)
+            b_ = obj_model(machine, more, src)
+            cand = [cs_ for cs_, x, y in zip(more, a_, b_) if x and y and x[1] != y[1]]
+            confirmed = 0
+            for (opts, docs) in cand[:40]:
+                bad = obj_reuse_failures(machine, opts, docs)
+                if bad:
+                    confirmed += 1
+                    if not any(v.get("replay") == "obj-reuse" and v.get("machine") == machine for v in res["violations"]):
+                        res["violations"].append({"kind": "read-differs-from-pristine:%s" % machine, "replay": "obj-reuse",
+                                                  "machine": machine, "opts": opts, "docs": docs, "input": docs, "op_index": bad[0],
+                                                  "what": "resets not visible in the source: %s; model-guided search: read %d on ONE "
+                                                          "%s reader object differs from the same read on a new object"
+                                                          % ([names[f] for f in full if f not in src], bad[0] + 1, machine)})
+            note = {"resets_not_visible_in_source": [names[f] for f in full if f not in src],
+                    "model_predicted_exposing_sequences": len(cand), "confirmed_on_the_real_reader": confirmed}
+        dist[machine] = {"resets_read_off_the_source": None if src is None else [names[f] for f in src], "source_vs_model": note,
+                         "sequences": n, "reads": reads, "reads_that_raised": raised, "compared_with_object_state_model": compared,
+                         "outside_model_domain_(fresh_read_differs)": outside,
+                         "sequences_on_which_leaving_out_the_reset_changes_a_result_(model)": exposes}
+
+
 def replay(ctx, rec):
+    if rec.get("replay") == "obj-reuse":
+        bad = obj_reuse_failures(rec["machine"], rec["opts"], rec["docs"])
+        return bool(bad), [(k, "read-differs-from-pristine:%s" % rec["machine"]) for k in bad]
     if rec.get("replay") == "scc-reuse":
         bad = scc_reuse_failures(rec["docs"])
         return bool(bad), [(k, "read-differs-from-pristine:scc") for k, _ in bad]
